@@ -1123,30 +1123,8 @@ func sentinelIndexRule(c *Ctx, r *Result, rule string, floor int) {
 				ok := fb.ProveGE0At(fb.lin(phi), u)
 				if !ok {
 					// excluded by an equality test: the use lies behind the edge phi != -1 and the variable never is below -1
-					if lo, _ := fb.rng(phi); lo >= -1 {
-						for _, b := range fn.Blocks {
-							ifi, isIf := b.Instrs[len(b.Instrs)-1].(*ssa.If)
-							if !isIf {
-								continue
-							}
-							cmp, isC := ifi.Cond.(*ssa.BinOp)
-							if !isC || stripConv(cmp.X) != ssa.Value(phi) {
-								continue
-							}
-							if kk, isK := constInt(cmp.Y); !isK || kk != -1 {
-								continue
-							}
-							edge := -1
-							switch cmp.Op {
-							case token.EQL:
-								edge = 1
-							case token.NEQ:
-								edge = 0
-							}
-							if edge >= 0 && edgeDominates(b, b.Succs[edge], u.Block()) {
-								ok = true
-							}
-						}
+					if lo, _ := fb.rng(phi); lo >= -1 && behindNotMinusOne(fn, phi, u) {
+						ok = true
 					}
 				}
 				r.Check(ok, rule, fmt.Sprintf("%s#search-result-used-as-position-%d", c.Name(fn), k), c.InstrPos(u), "the variable starts at -1 (nothing found); where it is used as an index or slice bound the dominating tests exclude -1")
@@ -2400,4 +2378,32 @@ func init() {
 	registry["C16"].Rules = append(registry["C16"].Rules, func(c *Ctx, r *Result) { parsePathGuardedRule(c, r, "C16.13") })
 	registry["C16"].Meta.Rules["C16.14"] = registry["C04"].Meta.Rules["C04.11"] + " (an oversized WriteRaw must be refused before anything is written)"
 	registry["C16"].Rules = append(registry["C16"].Rules, func(c *Ctx, r *Result) { sizeDisciplineRule(c, r, "C16.14") })
+}
+
+// behindNotMinusOne: the use lies behind an edge on which v != -1 (the false edge of v == -1, the true edge of v != -1).
+func behindNotMinusOne(fn *ssa.Function, v ssa.Value, u ssa.Instruction) bool {
+	for _, b := range fn.Blocks {
+		ifi, isIf := b.Instrs[len(b.Instrs)-1].(*ssa.If)
+		if !isIf {
+			continue
+		}
+		cmp, isC := ifi.Cond.(*ssa.BinOp)
+		if !isC || stripConv(cmp.X) != v {
+			continue
+		}
+		if kk, isK := constInt(cmp.Y); !isK || kk != -1 {
+			continue
+		}
+		edge := -1
+		switch cmp.Op {
+		case token.EQL:
+			edge = 1
+		case token.NEQ:
+			edge = 0
+		}
+		if edge >= 0 && edgeDominates(b, b.Succs[edge], u.Block()) {
+			return true
+		}
+	}
+	return false
 }
